@@ -274,6 +274,17 @@ def beartype_descriptor_decorator_builtin_class_or_static_method(
     #   * The low-level beartype_func() decorator (which requires the passed
     #     object to be callable, which the descriptor created and returned by
     #     the @property decorator is *NOT*).
+    #
+    # If this descriptor wraps a type rather than a function (e.g., the common
+    # "make_parser = staticmethod(Parser)" factory idiom), preserve this
+    # descriptor as is. That type is merely referenced by rather than defined
+    # in the type currently being decorated. Decorating that type would modify
+    # a type the caller never instructed @beartype to decorate -- exactly as
+    # for class-valued attributes, which the parent type decorator ignores
+    # unless nested in the decorated type.
+    if isinstance(descriptor_wrappee, type):
+        return descriptor
+
     descriptor_wrappee_checked = beartype_object(descriptor_wrappee, **kwargs) # type: ignore[union-attr]
 
     # If decorating this function reduced to a noop (e.g., because this function
